@@ -411,6 +411,23 @@ theorem return_shift (F : FloatOps) (bp k L : Nat) (hk : 1 ≤ k) (hbp : 1 ≤ b
     s'.stack[(s'.sp - 1).toNat]! = t'.stack[(t'.sp - 1).toNat]! :=
   UgoVerif.Proofs.Shift.return_shift F hk hbp s t ⟨h, hop⟩ r s' r' t' h1 h2
 
+/-- **call_return_partial.**  A whole body inside the covered fragment: `n` covered instructions followed by
+    the callee's RETURN.  From `ShB`-related states (as `prologue_eq_callbind` provides), if neither VM panics
+    or leaves the model and the child meets no uGO error on the way, then after the RETURN the child's loop
+    has returned without error, the parent is back in its caller's frame, heap, globals and module cache are
+    equal, and the child's result slot equals the parent's call-value slot. -/
+theorem call_return_partial (F : FloatOps) (bp k L n : Nat) (hk : 1 ≤ k) (hbp : 1 ≤ bp) (s t : State)
+    (h : ShB bp k L s t) (hc : CoveredRun F L n s) (s1 t1 : State) (r1 : Ctl)
+    (h1 : runSteps F n s = some (.next, s1)) (h2 : runSteps F n t = some (r1, t1))
+    (hop : ∀ op u, exec fetchOp s1 = (.ok op, u) → op = OpReturn)
+    (r r' : Ctl) (s' t' : State) (h3 : exec (step F) s1 = (.ok r, s')) (h4 : exec (step F) t1 = (.ok r', t')) :
+    r = .ret ∧ r' = .next ∧ s'.heap = t'.heap ∧ s'.globals = t'.globals ∧ s'.modules = t'.modules ∧
+    s'.err = none ∧ t'.err = none ∧ s'.frameIndex = 1 ∧ t'.frameIndex = k ∧ t'.sp = bp ∧ 1 ≤ s'.sp ∧
+    s'.stack[(s'.sp - 1).toNat]! = t'.stack[(t'.sp - 1).toNat]! := by
+  rcases steps_shift_partial F bp k L n s t h hc .next r1 s1 t1 h1 h2 with ⟨_, _, hsh⟩ | ⟨hr, _⟩
+  · exact return_shift F bp k L hk hbp s1 t1 hsh hop r r' s' t' h3 h4
+  · cases hr
+
 /-- **result_value_deref** (the epilogue).  `Run` returns `stack[sp-1]` unless it is an `*ObjectPtr`, which
     it dereferences (vm.go:166-170) — the in-script caller gets the slot value as it is.  So after
     `return_shift` the two results are EQUAL whenever the returned value is not a raw `*ObjectPtr`, and
